@@ -111,10 +111,13 @@ func (srv *Session) consumeSingleCommand(ctx context.Context, reader *buffer.Rea
 
 	srv.wg.Add(1)
 	srv.mu.RUnlock()
+
+	// NOTE: the registration is released however the command handler ends, a
+	// handler leaving through runtime.Goexit would otherwise block Close forever.
+	defer srv.wg.Done()
+
 	srv.logger.Debug("<- incoming command", slog.Int("length", length), slog.String("type", t.String()))
-	err = srv.handleCommand(ctx, conn, t, reader, writer)
-	srv.wg.Done()
-	return err
+	return srv.handleCommand(ctx, conn, t, reader, writer)
 }
 
 // handleMessageSizeExceeded attempts to unwrap the given error message as
